@@ -6,6 +6,7 @@ import (
 	"go/constant"
 	"go/token"
 	"go/types"
+	"math/big"
 	"sort"
 	"strconv"
 	"strings"
@@ -758,4 +759,19 @@ func (eng *Engine) fileImport(pkg *types.Package, pos token.Pos, name string) *t
 		}
 	}
 	return nil
+}
+
+// fewBits: constants whose bit operations are expanded exactly, bit by bit (small constants, or wide ones with at
+// most four set bits such as single flag bits)
+func fewBits(c *big.Int) bool {
+	if c.BitLen() <= 16 {
+		return true
+	}
+	n := 0
+	for i := 0; i < c.BitLen(); i++ {
+		if c.Bit(i) == 1 {
+			n++
+		}
+	}
+	return n <= 4 && c.BitLen() <= 62
 }
